@@ -26,7 +26,8 @@
 (*               demultiplexer they delegate to, which can be another selected strategy),        *)
 (*               ok |-> the record itself is well formed ('@' header, |seq| = |qual|),           *)
 (*               faithful |-> bases and qualities equal the original mate   (reject recs only)   *)
-(*               reason   |-> a rejection reason tag is present              (reject recs only)] *)
+(*               reason   |-> a rejection reason tag is present              (reject recs only)   *)
+(*               reasonGiven |-> ... and its value is not empty              (reject recs only)] *)
 EXTENDS Integers, Sequences, FiniteSets, Util
 
 Min2(a, b) == IF a < b THEN a ELSE b
@@ -104,6 +105,11 @@ PWellFormed(o) ==
 PRejectFaithful(o) ==
     \A j \in DOMAIN o.rej : \A m \in 1 .. o.mates : \A i \in DOMAIN o.rej[j][m].recs :
         o.rej[j][m].recs[i].faithful /\ o.rej[j][m].recs[i].reason
+
+(* "with a rejection reason": the reason is not the empty string.  Judged on runs with ONE selected   *)
+(* strategy only (K = 1), where the strategy that produced a reject is known; see Trace_Demux.       *)
+PRejectReasonGiven(o) ==
+    \A j \in DOMAIN o.rej : \A m \in 1 .. o.mates : \A i \in DOMAIN o.rej[j][m].recs : o.rej[j][m].recs[i].reasonGiven
 
 (* name of the first failing clause of the property on a finished run, or "ok" *)
 PVerdict(o) ==
